@@ -141,8 +141,26 @@ def run(ctx):
             blocks.append(cls(offset=rnd.randint(0, 26),
                               size=rnd.randint(0, 8), byte_interval=bi))
 
+        # a second interval built from the very bytearray object the first
+        # one exposes: the two must not share storage afterwards
+        twin = twin_model = None
+        if rnd.random() < 0.3:
+            twin_model = bytes(bi.contents)
+            twin = gt.ByteInterval(size=max(size, len(twin_model)),
+                                   contents=bi.contents)
+            ctx.count("aliasing_twins")
+
         def check(after):
             ctx.count("state_checks")
+            if twin is not None and (
+                    bytes(twin.contents) != twin_model or
+                    twin.initialized_size != len(twin_model)):
+                raise Discrepancy(
+                    "C19", "storage-shared-between-intervals",
+                    "an interval constructed from another interval's "
+                    "contents object changed when the other one was edited "
+                    "(after %s): %r, expected %r" % (
+                        after, bytes(twin.contents), twin_model), {})
             if bi.size != size:
                 raise Discrepancy("C19", "size-value",
                                   "size is %r after %s, assigned %r" % (
